@@ -1,7 +1,7 @@
 #!/usr/bin/env python3
 import json, glob, os
 rows=[]
-for d in sorted(glob.glob('/verif/seeded/C*-m*')):
+for d in sorted(glob.glob('/verif/seeded/C*-*m[0-9]')):
     mp=d+'/meta.json'
     if not os.path.exists(mp): continue
     m=json.load(open(mp))
